@@ -57,9 +57,9 @@ class Aardvark(object):
         self._dev = pyaardvark.open(self.port, self.serial_number)
         self._dev.enable_i2c_slave(self.slave_address >> 1)
 
-        if self.i2c_pullups:
+        if self.i2c_pullups is not None:
             self.enable_pullups(self.i2c_pullups)
-        if self.target_power:
+        if self.target_power is not None:
             self.enable_target_power(self.target_power)
 
         if self.fastmode is not None:
